@@ -6,6 +6,12 @@ ids = [p['id'] for p in props]
 
 # id -> (technique, level text, level note, engine)
 CLAIMED = {
+ "C01": ("proptest-generated graph recipes; differential oracle plaintext evaluator vs evaluator on compile_context output; shrinking to minimal recipe",
+         "Random search with shrinking over graph recipes (2-22 steps over all MPC-compilable operation families incl. Call/Iterate sub-graphs and library custom ops) x owner vectors in {0,1,2,public,shared}^n x output-party lists (ordered, possibly empty) x 3 inline modes x 2 evaluator seeds. Differential oracle: SimpleEvaluator on the instantiated source graph vs SimpleEvaluator on the compiled main graph on the same inputs (additive shares built and summed by the harness for shared inputs/outputs). Sampling, not proof.",
+         "Trusted: plaintext SimpleEvaluator as reference for the source graph (checked separately by C09/C10), harness share arithmetic (hv.rs). Truncate on private data and joins are covered by C05/C19, not here. One known finding (additively shared private permutation) is excluded by construction and pinned."),
+ "C02": ("proptest-generated recipes executed by a three-party executor model (per-party values, values cross only at Send nodes); oracle = plaintext value at every listed output party / share consistency",
+         "Random search with shrinking over the same recipes/configurations as C01, executed by three separate simulated parties: own inputs + generated junk for everything not owned, three independent random tapes, values replaced only at Send(s,r) nodes. Oracle: each listed output party holds exactly the plaintext value; for a shared output the replicated slots agree between neighbours and reconstruct the value; repeated with different junk and tapes.",
+         "Trusted: the execution model of reference/runtime.md as implemented in walk.rs::run3 (the proprietary runtime is unavailable); plaintext SimpleEvaluator as reference."),
  "C13": ("proptest generated integers/values vs reference byte encoder and structural layout predicate; JSON round-trip oracle",
          "Random search with shrinking over (scalar type x source integer type x boundary-heavy integers x ragged bit arrays x nested container types): read-back == integers mod 2^w with sign extension, bytes == the harness's own little-endian/LSB-first encoder, check_type <=> independent layout predicate (matching and near-miss layouts), JSON text parses back to an equal typed value. Sampling, not proof.",
          "Trusted: the harness's reference encoder/decoder (hv.rs) and layout predicate; serde_json itself. Two JSON format limitations are recorded as known findings and excluded by signature."),
